@@ -96,6 +96,11 @@ CHECKS = {
             "Every interleaving of capture sub-steps and Marshal reads is explored on the model; on the code 90 gated schedules (park point x later frames x writer gate) are "
             "deterministic replays - no timing luck - and each forwarded fingerprint must be the fingerprint of one instant.",
             "Hooks sit inside the critical sections; the -race stress run is corroboration outside the TLA+ argument (it also reports an unrelated race in the x/net HPACK encoder, see DESIGN D15)."),
+    'C06': ("Attribution.tla (per-connection metadata through both dispatch paths, slot reuse) checked by TLC; waves of concurrent utls clients with pairwise different "
+            "hellos and HTTP/2 preambles against the real stack, expected per-connection fingerprints evaluated by TLC from what each client really sent",
+            "The design is explored for all interleavings of 5 connections over 3 reusable slots; on the code every request of dozens of concurrent connections (keep-alive and "
+            "multiplexed) must carry exactly its own connection's three values, and any foreign value is attributed to the connection it belongs to.",
+            "Single peer address (loopback); schedules are random (seeded), not TLC-generated."),
 }
 
 NOT_YET = {}
